@@ -424,7 +424,7 @@ class Model:
         self.scopes.append(scope)
         if len(self.scopes) > self.max_scope_depth:
             self.max_scope_depth = len(self.scopes)
-        if len(self.scopes) > 60:
+        if len(self.scopes) > 200:
             self.scopes.pop()
             raise Unspec('deep recursion')
         try:
@@ -710,13 +710,15 @@ class Model:
             return arr.pop(idx)
         except IndexError:
             raise MErr('lang', 'pop index out of range')
+        except OverflowError as e:
+            raise MErr('other', str(e))
 
     def b_insert(self, arr, i, v):
         self.check_cap(arr)
         if not isinstance(arr, list):
             raise MErr('other', 'insert on non-list')
         idx = self.py(int, i)
-        arr.insert(idx, v)
+        self.py(lambda: arr.insert(idx, v))
         return None
 
     def b_remove(self, c, v):
